@@ -220,7 +220,7 @@ func relTo(ts []time.Time, base time.Time) []time.Duration {
 
 func TestCoalescingFakeClock(t *testing.T) {
 	sec := vk.Sec("CoalescingFakeClock")
-	vk.Check(t, 40000, 1000000, func(rt *rapid.T) {
+	vk.Check(t, 40000, 8000000, func(rt *rapid.T) {
 		c := fakeCase{InitMS: rapid.SampledFrom([]int{2, 10, 100}).Draw(rt, "initMS"), MaxMul: rapid.SampledFrom([]int{1, 2, 4, 8}).Draw(rt, "maxMul"), Cap: rapid.SampledFrom([]int{0, 0, 2, 3}).Draw(rt, "cap")}
 		n := rapid.IntRange(1, 16).Draw(rt, "nops")
 		for i := 0; i < n; i++ {
